@@ -414,6 +414,8 @@ class dir_archive(archive):
         return
     __setitem__.__doc__ = dict.__setitem__.__doc__
     def clear(self):
+        for _dir in self._lsdir(): # remove each entry in one step
+            self._rmtree(_dir)
         rmtree(self.__state__['id'], self=False, ignore_errors=True)
         return
     clear.__doc__ = dict.clear.__doc__
@@ -530,7 +532,10 @@ class dir_archive(archive):
 
     def _rmdir(self, key):
         "remove results subdirectory corresponding to given key"
-        _dir = self._getdir(key)
+        self._rmtree(self._getdir(key))
+        return
+    def _rmtree(self, _dir):
+        "remove the given results subdirectory"
         if not os.path.exists(_dir): return
         # first move the entry out of the entry namespace (atomic rename onto
         # an empty temporary directory), so it is never seen half-removed
